@@ -11,12 +11,13 @@ structure Adv (c c' : Cli μ ρ) (k : Nat) (out : List μ) : Prop where
   sent : c'.sent = c.sent
   rest : c'.rest = c.rest.drop k
   msgs : out ++ c'.cur = c.cur ++ (c.rest.take k).flatMap (·.msgs)
+  reach : c'.reach = c.reach
 
-theorem Adv.refl (c : Cli μ ρ) : Adv c c 0 [] := ⟨by simp, rfl, by simp, by simp⟩
+theorem Adv.refl (c : Cli μ ρ) : Adv c c 0 [] := ⟨by simp, rfl, by simp, by simp, rfl⟩
 
 theorem Adv.trans {c c' c'' : Cli μ ρ} {k k' : Nat} {o o' : List μ}
     (h : Adv c c' k o) (h' : Adv c' c'' k' o') : Adv c c'' (k + k') (o ++ o') := by
-  refine ⟨?_, ?_, ?_, ?_⟩
+  refine ⟨?_, ?_, ?_, ?_, by rw [h'.reach, h.reach]⟩
   · rw [h'.reqs, h.reqs, h.sent, List.append_assoc, List.replicate_append_replicate]
   · rw [h'.sent, h.sent]
   · rw [h'.rest, h.rest, List.drop_drop]
@@ -44,23 +45,23 @@ theorem attempt_adv (fuel : Nat) (last : ErrClass) (c : Cli μ ρ) (hc : c.cur =
   induction fuel generalizing last c with
   | zero => exact ⟨0, Nat.le_refl _, by simpa [hc] using Adv.refl c, hc, fun _ => rfl⟩
   | succ n ih =>
-    obtain ⟨cur, curEnd, rest, sent, reqs⟩ := c
+    obtain ⟨cur, curEnd, rest, sent, reqs, reach⟩ := c
     simp only at hc
     subst hc
     cases rest with
     | nil =>
       simp only [attempt]
-      exact AttemptGood.step (c1 := { cur := [], curEnd := .err, rest := [], sent := sent, reqs := reqs ++ [sent] })
-        ⟨by simp, rfl, by simp, by simp⟩ (ih _ _ rfl)
+      exact AttemptGood.step (c1 := { cur := [], curEnd := .err, rest := [], sent := sent, reqs := reqs ++ [sent], reach := reach })
+        ⟨by simp, rfl, by simp, by simp, rfl⟩ (ih _ _ rfl)
     | cons s r =>
       simp only [attempt]
       cases hm : s.msgs with
       | cons m ms =>
-        exact ⟨1, Nat.le_refl _, by omega, ⟨by simp, rfl, by simp, by simp [hm]⟩⟩
+        exact ⟨1, Nat.le_refl _, by omega, ⟨by simp, rfl, by simp, by simp [hm], rfl⟩⟩
       | nil =>
-        have step : Adv { cur := [], curEnd := curEnd, rest := s :: r, sent := sent, reqs := reqs }
-            { cur := ([] : List μ).tail, curEnd := s.fin, rest := r, sent := sent, reqs := reqs ++ [sent] } 1 [] :=
-          ⟨by simp, rfl, by simp, by simp [hm]⟩
+        have step : Adv { cur := [], curEnd := curEnd, rest := s :: r, sent := sent, reqs := reqs, reach := reach }
+            { cur := ([] : List μ).tail, curEnd := s.fin, rest := r, sent := sent, reqs := reqs ++ [sent], reach := reach } 1 [] :=
+          ⟨by simp, rfl, by simp, by simp [hm], rfl⟩
         by_cases hh : s.fin = .hang
         · simp only [hh, if_true]
           exact ⟨1, by omega, by simpa [hh] using step, rfl, fun h => absurd rfl h⟩
@@ -74,16 +75,22 @@ def RecvGood (watch : Bool) (max : Nat) (cancelled : Bool) (c : Cli μ ρ) : Rec
       (watch = true → cancelled = false → e ≠ .blocked → k = max + 1)
 
 /-- one `RecvMsg` -/
-theorem recvMsg_adv (watch : Bool) (max : Nat) (cancelled : Bool) (c : Cli μ ρ) :
+theorem recvCancelled_eq (watch : Bool) (c : Cli μ ρ) (hr : c.reach = false) :
+    recvCancelled watch c = .fail (if watch then .ctxCanceled else .rpcCanceled) c := by
+  cases watch <;> simp [recvCancelled, hr]
+
+theorem recvMsg_adv (watch : Bool) (max : Nat) (cancelled : Bool) (c : Cli μ ρ) (hr : c.reach = false) :
     RecvGood watch max cancelled c (recvMsg watch max cancelled c) := by
   unfold recvMsg
   cases cancelled with
-  | true => exact ⟨0, by omega, fun _ => rfl, fun _ => rfl, Adv.refl c, fun h => by simp at h, fun _ h => by simp at h⟩
+  | true =>
+    rw [if_pos rfl, recvCancelled_eq watch c hr]
+    exact ⟨0, by omega, fun _ => rfl, fun _ => rfl, Adv.refl c, fun h => by simp at h, fun _ h => by simp at h⟩
   | false =>
     simp only [Bool.false_eq_true, if_false]
     cases hcur : c.cur with
     | cons m ms =>
-      exact ⟨0, by omega, fun _ => rfl, rfl, ⟨by simp, rfl, by simp, by simp [hcur]⟩⟩
+      exact ⟨0, by omega, fun _ => rfl, rfl, ⟨by simp, rfl, by simp, by simp [hcur], rfl⟩⟩
     | nil =>
       by_cases hh : c.curEnd = .hang
       · simp only [hh, if_true]
@@ -105,14 +112,14 @@ theorem recvMsg_adv (watch : Bool) (max : Nat) (cancelled : Bool) (c : Cli μ ρ
             exact ⟨k, h2, fun h => by simp at h, fun h => by simp at h, h3, fun _ => h4, fun _ _ he => h5 he⟩
 
 /-- the caller's loop -/
-theorem recvLoop_adv (watch : Bool) (max : Nat) (fuel : Nat) (ca : Option Nat) (c : Cli μ ρ) :
+theorem recvLoop_adv (watch : Bool) (max : Nat) (fuel : Nat) (ca : Option Nat) (c : Cli μ ρ) (hr : c.reach = false) :
     ∃ k, (watch = false → k = 0) ∧
       Adv c (recvLoop watch max ca fuel c).final k (recvLoop watch max ca fuel c).delivered := by
   induction fuel generalizing ca c with
   | zero => exact ⟨0, fun _ => rfl, by simpa [recvLoop] using Adv.refl c⟩
   | succ n ih =>
     unfold recvLoop
-    have h1 := recvMsg_adv watch max (ca == some 0) c
+    have h1 := recvMsg_adv watch max (ca == some 0) c hr
     split
     · rename_i e c' heq
       rw [heq] at h1
@@ -121,13 +128,13 @@ theorem recvLoop_adv (watch : Bool) (max : Nat) (fuel : Nat) (ca : Option Nat) (
     · rename_i m c' heq
       rw [heq] at h1
       obtain ⟨k, _, hw, _, h⟩ := h1
-      obtain ⟨k', hw', h'⟩ := ih (ca.map (· - 1)) c'
+      obtain ⟨k', hw', h'⟩ := ih (ca.map (· - 1)) c' (by rw [h.reach, hr])
       exact ⟨k + k', fun hh => by rw [hw hh, hw' hh], by simpa using h.trans h'⟩
 
 /-- after the caller cancelled, `RecvMsg` changes nothing on the server side -/
-theorem recvMsg_cancelled (watch : Bool) (max : Nat) (c : Cli μ ρ) :
+theorem recvMsg_cancelled (watch : Bool) (max : Nat) (c : Cli μ ρ) (hr : c.reach = false) :
     recvMsg watch max true c = .fail (if watch then .ctxCanceled else .rpcCanceled) c := by
-  simp [recvMsg]
+  simp only [recvMsg, if_true]; exact recvCancelled_eq watch c hr
 
 /-- messages still to come -/
 def remaining (c : Cli μ ρ) : Nat := c.cur.length + totalMsgs c.rest
@@ -155,13 +162,13 @@ theorem Adv.remaining {c c' : Cli μ ρ} {k : Nat} {o : List μ} (h : Adv c c' k
   omega
 
 /-- with enough fuel an uncancelled run ends because `RecvMsg` failed: nothing is left undelivered -/
-theorem recvLoop_cur_nil (watch : Bool) (max : Nat) (fuel : Nat) (c : Cli μ ρ) (hf : remaining c < fuel) :
+theorem recvLoop_cur_nil (watch : Bool) (max : Nat) (fuel : Nat) (c : Cli μ ρ) (hr : c.reach = false) (hf : remaining c < fuel) :
     (recvLoop watch max none fuel c).final.cur = [] := by
   induction fuel generalizing c with
   | zero => omega
   | succ n ih =>
     unfold recvLoop
-    have h1 := recvMsg_adv watch max ((none : Option Nat) == some 0) c
+    have h1 := recvMsg_adv watch max ((none : Option Nat) == some 0) c hr
     split
     · rename_i e c' heq
       rw [heq] at h1
@@ -172,10 +179,10 @@ theorem recvLoop_cur_nil (watch : Bool) (max : Nat) (fuel : Nat) (c : Cli μ ρ)
       obtain ⟨k, _, _, _, h⟩ := h1
       have := h.remaining
       simp only [List.length_cons, List.length_nil] at this
-      exact ih c' (by omega)
+      exact ih c' (by rw [h.reach, hr]) (by omega)
 
 /-- cancelling after `n` messages yields a prefix of the uncancelled run, on both sides of the wire -/
-theorem recvLoop_cancel_prefix (watch : Bool) (max : Nat) (fuel : Nat) (n : Nat) (c : Cli μ ρ) :
+theorem recvLoop_cancel_prefix (watch : Bool) (max : Nat) (fuel : Nat) (n : Nat) (c : Cli μ ρ) (hr : c.reach = false) :
     (recvLoop watch max (some n) fuel c).delivered = ((recvLoop watch max none fuel c).delivered).take n ∧
     (recvLoop watch max (some n) fuel c).final.reqs <+: (recvLoop watch max none fuel c).final.reqs := by
   induction fuel generalizing n c with
@@ -183,10 +190,10 @@ theorem recvLoop_cancel_prefix (watch : Bool) (max : Nat) (fuel : Nat) (n : Nat)
   | succ f ih =>
     cases n with
     | zero =>
-      obtain ⟨k, _, h⟩ := recvLoop_adv watch max (f + 1) none c
+      obtain ⟨k, _, h⟩ := recvLoop_adv watch max (f + 1) none c hr
       have hc : (recvLoop watch max (some 0) (f + 1) c).delivered = [] ∧
           (recvLoop watch max (some 0) (f + 1) c).final = c := by
-        simp [recvLoop, recvMsg]
+        simp [recvLoop, recvMsg, recvCancelled_eq watch c hr]
       rw [hc.1, hc.2, h.reqs]
       exact ⟨by simp, List.prefix_append _ _⟩
     | succ n =>
@@ -194,10 +201,13 @@ theorem recvLoop_cancel_prefix (watch : Bool) (max : Nat) (fuel : Nat) (n : Nat)
       have e2 : ((none : Option Nat) == some 0) = false := by simp
       unfold recvLoop
       rw [e1, e2]
-      cases recvMsg watch max false c with
+      have hadv := recvMsg_adv watch max false c hr
+      cases hrm : recvMsg watch max false c with
       | fail e c' => simp
       | msg m c' =>
-        have := ih n c'
+        rw [hrm] at hadv
+        obtain ⟨_, _, _, _, ha⟩ := hadv
+        have := ih n c' (by rw [ha.reach, hr])
         simp only [Option.map_some, Nat.add_sub_cancel, Option.map_none, List.take_succ_cons]
         exact ⟨by rw [this.1], this.2⟩
 
